@@ -1,0 +1,84 @@
+//! Verification hooks (cargo feature `verif`, off by default).
+//!
+//! A harness can install two process-global callbacks that are invoked around
+//! every operation of [`crate::atomic::Atom`]:
+//!
+//! - `before(op, addr, size)` runs ahead of every atomic operation
+//!   (a scheduling point for a deterministic simulator),
+//! - `after(op, addr, size, success)` runs after every write-capable operation
+//!   (an observation point).
+//!
+//! Additionally, `casfail(addr, size)` may request a spurious failure of the
+//! weak compare-exchange inside `Atom::try_update`/`Atom::update`.
+//!
+//! Without installed callbacks, the atomics behave exactly as without this feature.
+
+use core::mem::transmute;
+use core::sync::atomic::{AtomicUsize, Ordering};
+
+use crate::bitfield::RowId;
+
+/// Kind of atomic operation
+#[derive(Clone, Copy, Debug, PartialEq, Eq)]
+#[repr(u8)]
+pub enum Op {
+    Load = 0,
+    Store = 1,
+    Swap = 2,
+    Cas = 3,
+    CasWeak = 4,
+    Fetch = 5,
+    /// Initial load of `try_update`/`update`
+    UpdateLoad = 6,
+    /// Compare exchange of `try_update`/`update`
+    UpdateCas = 7,
+}
+
+pub type BeforeFn = fn(op: Op, addr: usize, size: usize);
+pub type AfterFn = fn(op: Op, addr: usize, size: usize, success: bool);
+pub type CasFailFn = fn(addr: usize, size: usize) -> bool;
+
+static BEFORE: AtomicUsize = AtomicUsize::new(0);
+static AFTER: AtomicUsize = AtomicUsize::new(0);
+static CASFAIL: AtomicUsize = AtomicUsize::new(0);
+
+/// Install the hooks. They stay installed for the lifetime of the process.
+pub fn install(before: BeforeFn, after: AfterFn, casfail: CasFailFn) {
+    AFTER.store(after as usize, Ordering::SeqCst);
+    CASFAIL.store(casfail as usize, Ordering::SeqCst);
+    BEFORE.store(before as usize, Ordering::SeqCst);
+}
+
+/// Returns if hooks are installed.
+#[inline]
+pub fn enabled() -> bool {
+    BEFORE.load(Ordering::Relaxed) != 0
+}
+
+#[inline]
+pub(crate) fn before(op: Op, addr: usize, size: usize) {
+    let f = BEFORE.load(Ordering::Relaxed);
+    if f != 0 {
+        (unsafe { transmute::<usize, BeforeFn>(f) })(op, addr, size);
+    }
+}
+
+#[inline]
+pub(crate) fn after(op: Op, addr: usize, size: usize, success: bool) {
+    let f = AFTER.load(Ordering::Relaxed);
+    if f != 0 {
+        (unsafe { transmute::<usize, AfterFn>(f) })(op, addr, size, success);
+    }
+}
+
+#[inline]
+pub(crate) fn casfail(addr: usize, size: usize) -> bool {
+    let f = CASFAIL.load(Ordering::Relaxed);
+    f != 0 && (unsafe { transmute::<usize, CasFailFn>(f) })(addr, size)
+}
+
+/// Construct the bitfield row hint for `LLFree::lower.get`,
+/// the type of which is not nameable outside of this crate.
+pub fn row_id(row: usize) -> RowId {
+    RowId(row)
+}
